@@ -163,6 +163,13 @@ fn batch_main() -> i32 {
                 continue;
             }
         };
+        // the tracer may have switched the rewriter's logger on (process-wide level)
+        log::set_max_level(match job["log_level"].as_str().unwrap_or("off") {
+            "error" => log::LevelFilter::Error,
+            "debug" => log::LevelFilter::Debug,
+            "trace" => log::LevelFilter::Trace,
+            _ => log::LevelFilter::Off,
+        });
         let reader = fsim::SimFileReader::new(&fs, &fsim::FaultPlan::clean());
         let code = job["code"].as_str().unwrap_or("").to_string();
         let file = job["file"].as_str().unwrap_or("").to_string();
